@@ -266,6 +266,8 @@ type apiRun struct {
 	cn       *oidCanon
 	sessions map[int64]lungo.ISession
 	lastTs   primitive.Timestamp
+	txnOpen  bool  // a session transaction is open (it holds the writer token)
+	txnSid   int64 // ... and this is its session
 }
 
 func errClass(err error) string {
@@ -276,8 +278,15 @@ func errClass(err error) string {
 }
 
 func (a *apiRun) ctx(sid int64) (context.Context, context.CancelFunc) {
-	// a short deadline turns "would block on the writer token" into an error
-	base, cancel := context.WithTimeout(context.Background(), 30*time.Millisecond)
+	// a short deadline turns "would block on the writer token" into an error;
+	// it is only needed (and only used) while a session transaction holds the
+	// token: without one nothing blocks, and a short deadline would turn a slow
+	// call on a loaded machine into a spurious error
+	d := 60 * time.Second
+	if a.txnOpen {
+		d = 30 * time.Millisecond // only calls that must wait for the token consult it: they fail either way
+	}
+	base, cancel := context.WithTimeout(context.Background(), d)
 	if sid > 0 {
 		if s, ok := a.sessions[sid]; ok {
 			return lungo.VerifSessionContext(base, s.(*lungo.Session)), cancel
@@ -738,6 +747,7 @@ func (a *apiRun) call(c *sx) (string, *lungo.Handle) {
 		if err := s.StartTransaction(); err != nil {
 			return "ERR", nil
 		}
+		a.txnOpen, a.txnSid = true, sid
 		return "OK", nil
 	case "commit":
 		s, ok := a.sessions[sid]
@@ -747,6 +757,9 @@ func (a *apiRun) call(c *sx) (string, *lungo.Handle) {
 		}
 		if err := s.CommitTransaction(ctx); err != nil {
 			return "ERR", nil
+		}
+		if sid == a.txnSid {
+			a.txnOpen = false
 		}
 		return "OK", nil
 	case "abort":
@@ -758,6 +771,9 @@ func (a *apiRun) call(c *sx) (string, *lungo.Handle) {
 		if err := s.AbortTransaction(ctx); err != nil {
 			return "ERR", nil
 		}
+		if sid == a.txnSid {
+			a.txnOpen = false
+		}
 		return "OK", nil
 	case "end":
 		s, ok := a.sessions[sid]
@@ -766,6 +782,9 @@ func (a *apiRun) call(c *sx) (string, *lungo.Handle) {
 			a.sessions[sid] = s
 		}
 		s.EndSession(ctx)
+		if sid == a.txnSid {
+			a.txnOpen = false
+		}
 		return "OK", nil
 	case "expire":
 		txn, err := a.engine.Begin(ctx, true)
